@@ -265,15 +265,19 @@ class AppHost:
                 return
 
     # -- after the run --------------------------------------------------------------------
-    def drain_leftovers(self) -> None:
-        """Collect messages the server delivered to a queue that no one read."""
+    def drain_leftovers(self, peek: bool = False) -> None:
+        """Collect messages the server delivered to a queue that no one read (peek: without consuming)."""
         for inst in self.instances:
             receive = getattr(inst, "_receive", None)
             owner = getattr(receive, "__self__", None)
             if owner is None:
                 continue
             try:
-                if hasattr(owner, "get_nowait"):
+                if peek:
+                    inst.leftover = []
+                if peek and hasattr(owner, "_queue"):
+                    inst.leftover.extend(list(owner._queue))
+                elif hasattr(owner, "get_nowait"):
                     while True:
                         try:
                             inst.leftover.append(owner.get_nowait())
